@@ -881,9 +881,13 @@ func (rp *replayer) attempt(fn *ssa.Function, c *Contract, o *Obligation) bool {
 		}
 		inputs = append(inputs, j)
 	}
+	repaired := rp.repairInputs(fn, o, inputs)
 	src, pkgDir := rp.testSource(fn, inputs)
 	res, errText := rp.runReal(src, pkgDir)
 	data := map[string]interface{}{"function": fnName(fn), "inputs": inputs, "model_solver_calls": rp.m.calls, "go_test": src}
+	if len(repaired) > 0 {
+		data["inputs_made_realistic"] = repaired
+	}
 	o.replayData = data
 	if res == nil {
 		o.replayNote = "candidate input found but the injected test did not run: " + errText
@@ -914,6 +918,66 @@ func (rp *replayer) attempt(fn *ssa.Function, c *Contract, o *Obligation) bool {
 	}
 	o.replayNote = "candidate input did not reproduce: no ensures clause is provably false for the observed result"
 	return false
+}
+
+// repairInputs: with the axioms dropped the model interprets hexdec / fromHex freely, so a string parameter s with
+// "hexdec(s) = these 33 bytes" in the model need not be a hex string at all. Where a string parameter occurs as
+// hexdec(s), hexdec(trimPrefix(s, "0x")) or fromHex(s), s is replaced by the real hex spelling of the bytes the model
+// gives to that application - an input on which the real function computes what the model assumed.
+func (rp *replayer) repairInputs(fn *ssa.Function, o *Obligation, inputs []interface{}) []string {
+	var done []string
+	paramOf := map[*Term]int{}
+	for i := range fn.Params {
+		if v, ok := o.args[i].(VStr); ok {
+			paramOf[v.T] = i
+		}
+	}
+	if len(paramOf) == 0 {
+		return nil
+	}
+	seen := map[*Term]bool{}
+	var apps []*Term
+	var walk func(t *Term)
+	walk = func(t *Term) {
+		if seen[t] {
+			return
+		}
+		seen[t] = true
+		if t.Op == "app" && (t.Name == "hexdec" || t.Name == "fromHex") && len(t.Args) == 1 {
+			apps = append(apps, t)
+		}
+		for _, a := range t.Args {
+			walk(a)
+		}
+	}
+	for _, a := range rp.m.asserts {
+		walk(a)
+	}
+	for _, app := range apps {
+		arg := app.Args[0]
+		prefix := ""
+		if arg.Op == "app" && arg.Name == "trimPrefix" && len(arg.Args) == 2 {
+			if _, isParam := paramOf[arg.Args[0]]; isParam && arg.Args[1] == BytesConst("0x") {
+				arg = arg.Args[0]
+			}
+		}
+		idx, isParam := paramOf[arg]
+		if !isParam {
+			continue
+		}
+		n, ok := rp.m.boundedLen(Blen(app), 64)
+		if !ok {
+			continue
+		}
+		bs, ok := rp.readBytes(Barr(app), BV(64, 0), n)
+		if !ok {
+			continue
+		}
+		spelled := prefix + hex.EncodeToString(bs)
+		inputs[idx] = map[string]interface{}{"hex": hex.EncodeToString([]byte(spelled))}
+		done = append(done, fmt.Sprintf("%s := %q (the model has %s(...) = %x)", fn.Params[idx].Name(), spelled, app.Name, bs))
+	}
+	return done
 }
 
 // literal builds the constant Value of Go type t described by j.
